@@ -2,11 +2,16 @@
    xsync/xsync_go1.21.go) together with their scenario harness (harness_watch/watch.go).
    Model only (no proofs here).  Two independent systems: module [Fut] and module [Lazy].
 
-   Future: the struct is (c chan struct{}, x T).  Fill = write x, then close(c) (two steps; close
-   of a closed channel panics).  Wait = receive from c (enabled once closed), then read x.
-   WaitContext = a two-arm select (one atomic poll: every ready arm may be taken; otherwise the
-   goroutine stays parked and completes when an arm becomes ready), then read x.
+   Future: the struct is (c chan struct{}, filled uint32, x T).  Fill = one atomic
+   CompareAndSwap(&f.filled, 0, 1) (the loser panics at once, before it writes anything; the ghost
+   field [fwinner] records the goroutine that won), then write x, then close(c).
+   Wait = receive from c (enabled once closed), then read x.
+   WaitContext = first a non-blocking select (case <-f.c: read x and return it / default), then a
+   two-arm select (one atomic poll: every ready arm may be taken; otherwise the goroutine stays
+   parked and completes when an arm becomes ready), then read x.
    Contexts: Live / cancel requested / Done.
+   [Fut.step_orig] is the code before the repair (Fill without the CompareAndSwap, WaitContext
+   without the first select); it is used only by the refutation witnesses.
 
    Lazy: sync.OnceValue modelled by its documented specification — the first caller runs f, every
    other caller blocks until that call has completed, all callers get that result.  f is an up-call
@@ -35,12 +40,15 @@ Inductive kind := KFill (v : Z) | KWait | KWaitCtx (c : nat).
 
 Inductive pc :=
 | PIdle | PGate | PReady
-| PFillCalled                (* inside Fill, before f.x = x *)
+| PFillCalled                (* inside Fill, before the CompareAndSwap on f.filled *)
+| PFillWon                   (* the CompareAndSwap succeeded; about to execute f.x = x *)
 | PFillWritten               (* f.x written; about to close(f.c) *)
 | PFillClosed                (* about to return from Fill *)
-| PFillPanic                 (* close of closed channel *)
+| PFillPanic                 (* the CompareAndSwap failed: panic("... already been filled"), nothing written
+                                (also: the runtime panic of a close of a closed channel) *)
 | PWaitCalled                (* inside Wait: blocked in / about to execute <-f.c *)
-| PCtxCalled                 (* inside WaitContext: at the select *)
+| PCtxCalled                 (* inside WaitContext: at the first, non-blocking select (case <-f.c / default) *)
+| PCtxSel                    (* the first select took its default arm; at the second (blocking) select *)
 | PRecvd                     (* received from f.c; about to read f.x *)
 | PRead (v : Z)              (* read f.x = v; about to return it *)
 | PCtxErr                    (* took the ctx.Done arm; about to return (zero, ctx.Err()) *)
@@ -52,6 +60,8 @@ Record st := mkSt {
   ths : list thread;
   fx : Z;                    (* the field f.x (zero value initially) *)
   fclosed : bool;            (* f.c closed? *)
+  ffilled : bool;            (* the field f.filled (0 / 1) *)
+  fwinner : option nat;      (* GHOST: the goroutine whose CompareAndSwap set f.filled *)
   ctxs : list cstate;
   gates : list bool
 }.
@@ -63,22 +73,31 @@ Inductive lab :=
 | LCallWait (t : nat) | LRetWait (t : nat) (v : Z)
 | LCallWaitCtx (t : nat) (c : nat) | LRetWaitCtx (t : nat) (v : Z) (err : bool)
 (* internal *)
+| TCas (t : nat)             (* Fill: atomic.CompareAndSwapUint32(&f.filled, 0, 1) *)
 | TWrite (t : nat)           (* f.x = x *)
 | TCloseF (t : nat)          (* close(f.c) *)
 | TRecv (t : nat)            (* Wait: <-f.c *)
-| TSelF (t : nat)            (* WaitContext: select takes the <-f.c arm *)
-| TSelCtx (t : nat)          (* WaitContext: select takes the <-ctx.Done() arm *)
+| TPollF (t : nat)           (* WaitContext: the first select takes the <-f.c arm *)
+| TPollD (t : nat)           (* WaitContext: the first select takes the default arm *)
+| TSelF (t : nat)            (* WaitContext: the second select takes the <-f.c arm *)
+| TSelCtx (t : nat)          (* WaitContext: the second select takes the <-ctx.Done() arm *)
 | TRead (t : nat)            (* read f.x *)
 | TCancelEff (c : nat).
 
 Definition getth (s : st) (t : nat) : option thread := nth_error (ths s) t.
 Definition set_pc (x : thread) (p : pc) : thread := mkT (t_gate x) (t_kind x) p.
 Definition setth (s : st) (t : nat) (x : thread) : st :=
-  mkSt (upd (ths s) t x) (fx s) (fclosed s) (ctxs s) (gates s).
-Definition with_fx (s : st) (v : Z) : st := mkSt (ths s) v (fclosed s) (ctxs s) (gates s).
-Definition with_closed (s : st) : st := mkSt (ths s) (fx s) true (ctxs s) (gates s).
-Definition with_ctxs (s : st) (c : list cstate) : st := mkSt (ths s) (fx s) (fclosed s) c (gates s).
-Definition with_gates (s : st) (g : list bool) : st := mkSt (ths s) (fx s) (fclosed s) (ctxs s) g.
+  mkSt (upd (ths s) t x) (fx s) (fclosed s) (ffilled s) (fwinner s) (ctxs s) (gates s).
+Definition with_fx (s : st) (v : Z) : st :=
+  mkSt (ths s) v (fclosed s) (ffilled s) (fwinner s) (ctxs s) (gates s).
+Definition with_closed (s : st) : st :=
+  mkSt (ths s) (fx s) true (ffilled s) (fwinner s) (ctxs s) (gates s).
+Definition with_filled (s : st) (t : nat) : st :=
+  mkSt (ths s) (fx s) (fclosed s) true (Some t) (ctxs s) (gates s).
+Definition with_ctxs (s : st) (c : list cstate) : st :=
+  mkSt (ths s) (fx s) (fclosed s) (ffilled s) (fwinner s) c (gates s).
+Definition with_gates (s : st) (g : list bool) : st :=
+  mkSt (ths s) (fx s) (fclosed s) (ffilled s) (fwinner s) (ctxs s) g.
 
 Definition gate_open (s : st) (x : thread) : bool :=
   match t_gate x with
@@ -120,10 +139,20 @@ Definition step (s : st) (l : lab) : option st :=
                   | _ => None end
       | None => None
       end
+  | TCas t =>
+      (* one atomic step: the loser panics at once, before any write *)
+      match getth s t with
+      | Some x => match t_pc x with
+                  | PFillCalled =>
+                      if ffilled s then Some (setth s t (set_pc x PFillPanic))
+                      else Some (setth (with_filled s t) t (set_pc x PFillWon))
+                  | _ => None end
+      | None => None
+      end
   | TWrite t =>
       match getth s t with
       | Some x => match t_pc x, t_kind x with
-                  | PFillCalled, KFill v => Some (setth (with_fx s v) t (set_pc x PFillWritten))
+                  | PFillWon, KFill v => Some (setth (with_fx s v) t (set_pc x PFillWritten))
                   | _, _ => None end
       | None => None
       end
@@ -167,17 +196,31 @@ Definition step (s : st) (l : lab) : option st :=
                   | _ => None end
       | None => None
       end
-  | TSelF t =>
+  | TPollF t =>
       match getth s t with
       | Some x => match t_pc x with
                   | PCtxCalled => if fclosed s then Some (setth s t (set_pc x PRecvd)) else None
                   | _ => None end
       | None => None
       end
+  | TPollD t =>
+      match getth s t with
+      | Some x => match t_pc x with
+                  | PCtxCalled => if fclosed s then None else Some (setth s t (set_pc x PCtxSel))
+                  | _ => None end
+      | None => None
+      end
+  | TSelF t =>
+      match getth s t with
+      | Some x => match t_pc x with
+                  | PCtxSel => if fclosed s then Some (setth s t (set_pc x PRecvd)) else None
+                  | _ => None end
+      | None => None
+      end
   | TSelCtx t =>
       match getth s t with
       | Some x => match t_pc x, t_kind x with
-                  | PCtxCalled, KWaitCtx c => if ctx_done s c then Some (setth s t (set_pc x PCtxErr)) else None
+                  | PCtxSel, KWaitCtx c => if ctx_done s c then Some (setth s t (set_pc x PCtxErr)) else None
                   | _, _ => None end
       | None => None
       end
@@ -206,8 +249,33 @@ Definition step (s : st) (l : lab) : option st :=
   | LQuiesce => None
   end.
 
+(* The code BEFORE the repair, kept only for the refutation witnesses of Conc/WatchProofs.v
+   ([FutP.orig_fill_refuted], [FutP.orig_waitcontext_refuted]):
+     Fill        = f.x = x; close(f.c)                  (no CompareAndSwap: every Fill writes)
+     WaitContext = the two-arm select only              (no first poll of f.c) *)
+Definition step_orig (s : st) (l : lab) : option st :=
+  match l with
+  | TCas _ | TPollF _ | TPollD _ => None
+  | TWrite t =>
+      match getth s t with
+      | Some x => match t_pc x, t_kind x with
+                  | PFillCalled, KFill v => Some (setth (with_fx s v) t (set_pc x PFillWritten))
+                  | _, _ => None end
+      | None => None
+      end
+  | LCallWaitCtx t c =>
+      match getth s t with
+      | Some x => match t_kind x with
+                  | KWaitCtx c' => if ready s x && Nat.eqb c c' then Some (setth s t (set_pc x PCtxSel)) else None
+                  | _ => None end
+      | None => None
+      end
+  | _ => step s l
+  end.
+
 Definition tau_labels (s : st) : list lab :=
-  flat_map (fun t => [TWrite t; TCloseF t; TRecv t; TSelF t; TSelCtx t; TRead t]) (seq 0 (length (ths s)))
+  flat_map (fun t => [TCas t; TWrite t; TCloseF t; TRecv t; TPollF t; TPollD t; TSelF t; TSelCtx t; TRead t])
+           (seq 0 (length (ths s)))
   ++ map TCancelEff (seq 0 (length (ctxs s))).
 
 Definition thread_visible (s : st) (t : nat) : list lab :=
@@ -264,8 +332,9 @@ Definition kind_eqb (a b : kind) : bool :=
   end.
 Definition pc_eqb (a b : pc) : bool :=
   match a, b with
-  | PIdle, PIdle | PGate, PGate | PReady, PReady | PFillCalled, PFillCalled | PFillWritten, PFillWritten
-  | PFillClosed, PFillClosed | PFillPanic, PFillPanic | PWaitCalled, PWaitCalled | PCtxCalled, PCtxCalled
+  | PIdle, PIdle | PGate, PGate | PReady, PReady | PFillCalled, PFillCalled | PFillWon, PFillWon
+  | PFillWritten, PFillWritten | PFillClosed, PFillClosed | PFillPanic, PFillPanic
+  | PWaitCalled, PWaitCalled | PCtxCalled, PCtxCalled | PCtxSel, PCtxSel
   | PRecvd, PRecvd | PCtxErr, PCtxErr | PDone, PDone => true
   | PRead v, PRead w => Z.eqb v w
   | _, _ => false
@@ -278,13 +347,17 @@ Definition st_eqb (a b : st) : bool :=
   if Bool.eqb (fclosed a) (fclosed b)
   then if Z.eqb (fx a) (fx b)
        then if list_eqb thread_eqb (ths a) (ths b)
-            then if list_eqb cstate_eqb (ctxs a) (ctxs b) then list_eqb Bool.eqb (gates a) (gates b) else false
+            then if list_eqb cstate_eqb (ctxs a) (ctxs b)
+                 then if list_eqb Bool.eqb (gates a) (gates b)
+                      then if Bool.eqb (ffilled a) (ffilled b) then optnat_eqb (fwinner a) (fwinner b) else false
+                      else false
+                 else false
             else false
        else false
   else false.
 
 Definition init (cfg : list (option nat * kind)) (nctx ngates : nat) : st :=
-  mkSt (map (fun p => mkT (fst p) (snd p) PIdle) cfg) 0%Z false (repeat CLive nctx) (repeat false ngates).
+  mkSt (map (fun p => mkT (fst p) (snd p) PIdle) cfg) 0%Z false false None (repeat CLive nctx) (repeat false ngates).
 
 Definition accepts_history (cfg : list (option nat * kind)) (nctx ngates : nat) (evs : list lab) : bool :=
   accepts qstep vis lab_eqb st_eqb tau_labels (fun _ e => [e]) 64 (init cfg nctx ngates) evs.
